@@ -331,7 +331,7 @@ def peer_churn(tier, seed):
     if not os.path.exists(os.path.join(d, "o.json")):
         # the process died: with the listed race the Go runtime itself may abort it ("concurrent map iteration and map write")
         i = max(p.stderr.find("fatal error:"), p.stderr.find("panic:"))
-        if i < 0:
+        if i < 0 or ("fatal error:" not in p.stderr and c.panic_in_harness(p.stderr)):
             raise c.Infra("churn run failed: %s" % p.stderr[-2000:])
         crash = p.stderr[i:i + 6000]
         # (race reports are interleaved with the runtime's goroutine dump: the listed sites are looked for in all of it)
@@ -430,7 +430,7 @@ def c15(tier, seed, replay_path=None):
         viol.append(("race detector: %d data race report(s) in free-running concurrent ingestion/reads" % races,
                      {"family": "race", "report": p.stderr[i:i + 3000]}))
     elif p.returncode != 0:
-        if "panic:" in p.stderr or "fatal error" in p.stderr:
+        if ("panic:" in p.stderr and not c.panic_in_harness(p.stderr)) or "fatal error" in p.stderr:
             viol.append(("process crashed under free-running concurrent ingestion/reads", {"family": "race", "report": p.stderr[-3000:]}))
         else:
             raise c.Infra("race run failed: %s" % p.stderr[-2000:])
